@@ -453,6 +453,33 @@ func runC04(p *Prog, r *Result) {
 						if _, isSel := ast.Unparen(rh).(*ast.SelectorExpr); isSel {
 							note(rh, x.Pos())
 						}
+						// wps[i] = &SglQuoted{…, Dollar: dq.Dollar, …}: the node the values come from is replaced
+						// by one of another type; nothing of it is kept as such
+						e := ast.Unparen(rh)
+						if ue, ok := e.(*ast.UnaryExpr); ok && ue.Op == token.AND {
+							e = ast.Unparen(ue.X)
+						}
+						if cl, ok := e.(*ast.CompositeLit); ok {
+							for _, el := range cl.Elts {
+								kv, ok := el.(*ast.KeyValueExpr)
+								if !ok {
+									continue
+								}
+								if se, ok := ast.Unparen(kv.Value).(*ast.SelectorExpr); ok {
+									if id, ok := ast.Unparen(se.X).(*ast.Ident); ok {
+										for _, l := range locals {
+											if l.obj == info.ObjectOf(id) && l.t != namedOf(info.TypeOf(cl)) {
+												k := l.obj.Name() + ".(replaced)"
+												if !seen[k] {
+													seen[k] = true
+													discards = append(discards, discard{l, "", x.Pos()})
+												}
+											}
+										}
+									}
+								}
+							}
+						}
 					}
 				}
 			}
@@ -483,6 +510,9 @@ func runC04(p *Prog, r *Result) {
 				f := stT.Field(i)
 				nf := si.classify(d.l.t, f)
 				key := fmt.Sprintf("%s#drops %s (a %s) keeping .%s: field %s", fk, d.l.obj.Name(), d.l.t.Obj().Name(), d.kept, f.Name())
+				if d.kept == "" {
+					key = fmt.Sprintf("%s#replaces %s (a %s) by a node of another type: field %s", fk, d.l.obj.Name(), d.l.t.Obj().Name(), f.Name())
+				}
 				switch {
 				case f.Name() == d.kept:
 					continue
@@ -492,8 +522,8 @@ func runC04(p *Prog, r *Result) {
 					r.OK("R04c", key, d.pos, "comment list (not meaning-carrying for C04; comment conservation under -s is not claimed)")
 				case condReads[d.l.obj][f.Name()]:
 					r.OK("R04c", key, d.pos, "read in a condition guarding the rewrite")
-				case keptElsewhere(info, fd, d.l.obj, f.Name()):
-					r.OK("R04c", key, d.pos, "carried over into the replacement")
+				case keptElsewhere(info, fd, d.l.obj, f.Name(), d.l.t):
+					r.OK("R04c", key, d.pos, "carried over into a replacement node of the same type")
 				default:
 					if why, ok := c04FieldExceptions[d.l.t.Obj().Name()+"."+f.Name()+"@"+fd.Name.Name]; ok {
 						r.OK("R04c", key, d.pos, "exception: "+why)
@@ -613,20 +643,27 @@ var c04FieldExceptions = map[string]string{
 	"Word.Parts@inlineSimpleParams":  "the guard len(w.Parts) == 1 and the assertion on w.Parts[0] look at the whole slice; reported as a read of Parts through indexing",
 }
 
-// keptElsewhere: the function also stores l.field into something it returns (e.g. Dollar: dq.Dollar in a literal).
-func keptElsewhere(info *types.Info, fd *ast.FuncDecl, o types.Object, field string) bool {
+// keptElsewhere: the function also stores l.field into a literal of the same node type that it returns. A field of
+// the same name on another node type does not count: `Dollar` on a DblQuoted ($"…", locale translation) and on a
+// SglQuoted ($'…', escape sequences) mean different things, so carrying it across is not preservation.
+func keptElsewhere(info *types.Info, fd *ast.FuncDecl, o types.Object, field string, owner *types.Named) bool {
 	hit := false
 	ast.Inspect(fd.Body, func(n ast.Node) bool {
-		kv, ok := n.(*ast.KeyValueExpr)
-		if !ok {
+		cl, ok := n.(*ast.CompositeLit)
+		if !ok || namedOf(info.TypeOf(cl)) != owner {
 			return true
 		}
-		if se, ok := ast.Unparen(kv.Value).(*ast.SelectorExpr); ok && se.Sel.Name == field {
-			if id, ok := ast.Unparen(se.X).(*ast.Ident); ok && info.ObjectOf(id) == o {
-				hit = true
+		for _, el := range cl.Elts {
+			kv, ok := el.(*ast.KeyValueExpr)
+			if !ok {
+				continue
+			}
+			if se, ok := ast.Unparen(kv.Value).(*ast.SelectorExpr); ok && se.Sel.Name == field {
+				if id, ok := ast.Unparen(se.X).(*ast.Ident); ok && info.ObjectOf(id) == o {
+					hit = true
+				}
 			}
 		}
-		// method calls such as dq.Pos() / dq.End() read positions only; not counted
 		return true
 	})
 	return hit
@@ -673,6 +710,8 @@ func reachableFromAvoidingBlock(g *FGraph, b *FBlock, i int, head *FBlock, stop 
 }
 
 var c04Controls = []Control{
+	{Name: "dollar-string-requoted", Rule: "R04c", WantKey: "simplifyWord#replaces dq", File: "syntax/simplify.go",
+		Mutate: ctlReplace("simplifier.simplifyWord", "dq == nil || dq.Dollar || len(dq.Parts) != 1", "dq == nil || len(dq.Parts) != 1", 0)},
 	{Name: "printer-loses-single-quote-case", Rule: "R04b", WantKey: "SglQuoted#built by the simplifier", File: "syntax/printer.go",
 		Mutate: ctlReplaceAnywhere("\tcase *SglQuoted:\n\t\tif wp.Dollar {\n\t\t\tp.w.WriteByte('$')\n\t\t}\n\t\tp.w.WriteByte('\\'')\n\t\tp.writeLit(wp.Value)\n\t\tp.w.WriteByte('\\'')\n\t\tp.advanceLine(wp.End().Line())\n", "")},
 	{Name: "silent-paren-removal", Rule: "R04a", WantKey: "removeParensTest#change", File: "syntax/simplify.go",
